@@ -1,23 +1,154 @@
 package main
 
 import (
+	"flag"
 	"fmt"
 	"os"
-
-	"golang.org/x/tools/go/packages"
-	"golang.org/x/tools/go/ssa"
-	"golang.org/x/tools/go/ssa/ssautil"
+	"sort"
+	"strings"
+	"time"
 )
 
 func main() {
-	cfg := &packages.Config{Mode: packages.LoadAllSyntax, Dir: "/repo", BuildFlags: []string{"-tags=verif"}}
-	pkgs, err := packages.Load(cfg, "./...")
-	if err != nil {
-		fmt.Println(err)
+	if len(os.Args) < 2 {
+		fmt.Fprintln(os.Stderr, "usage: govc check <ID> [--tier quick|thorough] | govc func <name> --mode m1,m2 [--prop ID] | govc list [pattern]")
 		os.Exit(2)
 	}
-	n := packages.PrintErrors(pkgs)
-	prog, spkgs := ssautil.AllPackages(pkgs, ssa.GlobalDebug|ssa.InstantiateGenerics)
-	prog.Build()
-	fmt.Println(len(pkgs), len(spkgs), n)
+	defer cleanupScratch()
+	switch os.Args[1] {
+	case "check":
+		os.Exit(cmdCheck(os.Args[2:]))
+	case "func":
+		os.Exit(cmdFunc(os.Args[2:]))
+	case "list":
+		os.Exit(cmdList(os.Args[2:]))
+	case "ssa":
+		os.Exit(cmdSSA(os.Args[2:]))
+	default:
+		fmt.Fprintln(os.Stderr, "unknown command", os.Args[1])
+		os.Exit(2)
+	}
+}
+
+func cmdList(args []string) int {
+	w, err := loadWorldWithSpecs()
+	if err != nil {
+		fmt.Fprintln(os.Stderr, err)
+		return 2
+	}
+	var names []string
+	for n := range w.Funcs {
+		if len(args) == 0 || strings.Contains(n, args[0]) {
+			names = append(names, n)
+		}
+	}
+	sort.Strings(names)
+	for _, n := range names {
+		fmt.Printf("%s\t%d instrs\t%d loops\n", n, countInstrs(w.Funcs[n]), len(w.Loops(w.Funcs[n]).Loops))
+	}
+	return 0
+}
+
+func cmdSSA(args []string) int {
+	w, err := loadWorldWithSpecs()
+	if err != nil {
+		fmt.Fprintln(os.Stderr, err)
+		return 2
+	}
+	fn := w.Func(args[0])
+	if fn == nil {
+		fmt.Fprintln(os.Stderr, "no such function")
+		return 2
+	}
+	fn.WriteTo(os.Stdout)
+	return 0
+}
+
+func cmdFunc(args []string) int {
+	fs := flag.NewFlagSet("func", flag.ExitOnError)
+	mode := fs.String("mode", "sweep", "comma-separated modes")
+	prop := fs.String("prop", "", "property id for tagged clauses")
+	dump := fs.String("dump", "", "dump SMT of obligations whose name contains this")
+	timeout := fs.Duration("timeout", 10*time.Second, "per-obligation timeout")
+	verbose := fs.Bool("v", false, "verbose")
+	name := args[0]
+	fs.Parse(args[1:])
+	w, err := loadWorldWithSpecs()
+	if err != nil {
+		fmt.Fprintln(os.Stderr, err)
+		return 2
+	}
+	fn := w.Func(name)
+	if fn == nil {
+		fmt.Fprintln(os.Stderr, "no such function:", name)
+		return 2
+	}
+	start := time.Now()
+	x, err := w.VerifyFunc(fn, modeFromNames(strings.Split(*mode, ",")), *prop)
+	if err != nil {
+		fmt.Fprintln(os.Stderr, "ERROR:", err)
+		return 2
+	}
+	fmt.Printf("%s: %d obligations, %d assumptions, exec %.2fs\n", name, len(x.obligs), len(x.assums), time.Since(start).Seconds())
+	res := x.discharge(*timeout, 16)
+	bad := 0
+	for _, r := range res {
+		if r.Status == "discharged" || r.Status == "trivial" {
+			if *verbose {
+				fmt.Printf("  ok   %-70s %s %.2fs\n", r.Obl.Name, r.Solver, r.Seconds)
+			}
+		} else {
+			bad++
+			fmt.Printf("  %-7s %-70s %s %.2fs  at %s\n", r.Status, r.Obl.Name, r.Solver, r.Seconds, r.Obl.Pos)
+			if r.Status == "failed" {
+				fmt.Printf("          model: %s\n", modelSummary(r.Model, 14))
+			}
+		}
+		if *dump != "" && strings.Contains(r.Obl.Name, *dump) {
+			s, _, _ := x.buildQuery(r.Obl, true, false)
+			fn := fmt.Sprintf("/var/tmp/verif-scratch/dump_%s.smt2", sanitize(r.Obl.Name))
+			os.WriteFile(fn, []byte(s), 0o644)
+			fmt.Println("  dumped to", fn)
+		}
+	}
+	for _, wn := range x.warnings {
+		fmt.Println("  warning:", wn)
+	}
+	if *verbose {
+		var ks []string
+		for k, n := range x.unknownCalls {
+			ks = append(ks, fmt.Sprintf("%s×%d", k, n))
+		}
+		sort.Strings(ks)
+		fmt.Println("  unknown calls:", strings.Join(ks, ", "))
+	}
+	fmt.Printf("  %d/%d discharged, total %.2fs\n", len(res)-bad, len(res), time.Since(start).Seconds())
+	if bad > 0 {
+		return 1
+	}
+	return 0
+}
+
+func modelSummary(m map[string]string, n int) string {
+	var ks []string
+	for k := range m {
+		if strings.HasPrefix(k, "p_") || strings.HasPrefix(k, "ret_") || strings.HasPrefix(k, "loop_") || strings.HasPrefix(k, "fv_") {
+			ks = append(ks, k)
+		}
+	}
+	sort.Strings(ks)
+	var out []string
+	for i, k := range ks {
+		if i >= n {
+			out = append(out, "...")
+			break
+		}
+		out = append(out, k+"="+m[k])
+	}
+	return strings.Join(out, " ")
+}
+
+func cmdCheck(args []string) int {
+	fmt.Fprintln(os.Stderr, "check: not built yet")
+	return 2
 }
